@@ -52,6 +52,13 @@ from vlib import api, lbytes, lift
 from vlib.api import H, cover
 from vlib.lift import b, t
 
+if api.MODE == "sym":
+    # z3's default arithmetic core (arith.solver=6) needs > 10 s for the final round-trip equality of an
+    # astral character inside CrossHair's incremental solver; the classic simplex core decides the same
+    # query in 10 ms (measured on the dumped query).  Performance setting only.
+    import z3 as _z3
+    _z3.set_param("smt.arith.solver", 2)
+
 PROPERTY = "C41"
 LEVEL = "model_checking"
 ENCODED = ["twisted.mail.smtp:xtext_encode", "twisted.mail.smtp:xtext_decode",
@@ -352,9 +359,25 @@ def _cview(mv, fmt):
 lbytes.CODECS["utf-7"] = (_utf7_encode, _utf7_decode)
 lbytes.CODECS["utf-16-be"] = (_utf16be_encode, None)
 
+_HEXVAL = [(48, 57, 1, -48), (65, 70, 1, -55), (97, 102, 1, -87)]
+
+
+def _l_int(x=0, base=None):
+    """the call int(...) inside the lifted xtext_decode: two hexadecimal digits are converted by one
+    if-then-else term per digit (lbytes.l_int forks three ways per digit); everything else, including
+    every malformed input, goes to lbytes.l_int"""
+    if base == 16 and isinstance(x, lbytes._LBase) and not lbytes._is_conc(x.s) and lbytes._len_conc(x.s) \
+            and len(x.s) == 2:
+        hi = lbytes.pw_map(ord(x.s[0]), _HEXVAL, (0, -1))
+        lo = lbytes.pw_map(ord(x.s[1]), _HEXVAL, (0, -1))
+        if hi >= 0 and lo >= 0:
+            return hi * 16 + lo
+    return lbytes.l_int(x, base)
+
+
 _C = lift.lift("twisted.python.compat", names=["networkString"], encode_calls=True)
 S = lift.lift("twisted.mail.smtp", names=["xtext_encode", "xtext_decode"], fstrings=True,
-              overrides={"networkString": _C.networkString})
+              overrides={"networkString": _C.networkString}, extra_shims={"_vl_int": _l_int})
 I = lift.lift("twisted.mail.imap4", names=["modified_base64", "modified_unbase64", "encoder", "decoder"],
               encode_calls=True, overrides={"binascii": _binascii, "memory_cast": _cview},
               extra_shims={"set": _CharSet})
@@ -471,17 +494,17 @@ _CLASSES = {
 
 
 def _utf7_shards(tier):
+    """case split: length x class of the first character (x class of the second one for length 3);
+    the remaining characters range over all classes inside the shard"""
     out = []
-    n = BOUNDS[tier]["u"]
-
-    def rec(prefix):
-        if prefix:
-            out.append(tuple(["len(s) == %d" % len(prefix)] +
-                             [_CLASSES[c].replace("%d", str(i)) for i, c in enumerate(prefix)]))
-        if len(prefix) < n:
-            for c in "PACLBS":
-                rec(prefix + c)
-    rec("")
+    for n in range(1, BOUNDS[tier]["u"] + 1):
+        fixed = 1 if n <= 2 else 2
+        prefixes = [""]
+        for _ in range(fixed):
+            prefixes = [p + c for p in prefixes for c in "PACLBS"]
+        for pre in prefixes:
+            out.append(tuple(["len(s) == %d" % n] +
+                             [_CLASSES[c].replace("%d", str(i)) for i, c in enumerate(pre)]))
     return out
 
 
@@ -570,6 +593,22 @@ def selftest():
             got = "ERR"
         assert want == got, (raw, want, got)
         n += 1
+    for a in "09afAFgG/:@`+- _\x00\xff":
+        for c in "09afAFgG/:@`+- _\x00\xff":
+            try:
+                want = int((a + c).encode("latin-1"), 16)
+            except ValueError:
+                want = "ValueError"
+            try:
+                got = _l_int(lbytes.LBytes(a + c), 16)
+                hi, lo = lbytes.pw_map(ord(a), _HEXVAL, (0, -1)), lbytes.pw_map(ord(c), _HEXVAL, (0, -1))
+                if hi >= 0 and lo >= 0:
+                    assert hi * 16 + lo == want, (a, c)
+            except ValueError:
+                got = "ValueError"
+            if "_" not in a + c:
+                assert want == got, (a, c, want, got)
+            n += 1
     assert [bytes(x) for x in _cview(b"a&-", "c")] == list(memoryview(b"a&-").cast("c"))
     cs = _CharSet(map(chr, range(0x20, 0x7F))) - {"&"}
     real = set(map(chr, range(0x20, 0x7F))) - {"&"}
